@@ -261,7 +261,7 @@ static inline void worker_loop(Harness &h, Shared *sh, int wid, uint64_t seed, i
     if (o.nontrivial) {
       __sync_fetch_and_add(&sh->nontrivial, 1);
       hb.push_back(plan_hash(plan));
-      if (hb.size() >= 16) { fwrite(hb.data(), 8, hb.size(), hf); fflush(hf); hb.clear(); }  // small batches: a dying worker loses its buffer
+      if (hb.size() >= 1) { fwrite(hb.data(), 8, hb.size(), hf); fflush(hf); hb.clear(); }  // small batches: a dying worker loses its buffer
       if (sh->nsamples < MAX_SAMPLES) { int64_t k = __sync_fetch_and_add(&sh->nsamples, 1); if (k < MAX_SAMPLES) sh->sample_idx[k] = ix; }
     }
     if (o.violation) {
